@@ -125,7 +125,46 @@ def gen_safe_cases(ctx, facts, config, entries, lens, mismatches, masks, forms=(
     return cases, meta
 
 
-def compare_safe(ctx, config, cases, meta, what, on_diff=None, shape_only=False):
+def check_safe_spec(ctx, pid, config, cases, meta, imp):
+    """The SPECIFICATION (Model/Spec.v, extracted) of the operation the safe routine's NAME announces, applied to the
+    implementation's output of every documented call (the model of the wrapper is regenerated from the same tables as the
+    code, so a mis-wired slot is invisible to the impl-vs-model comparison; it is not invisible to the specification)."""
+    todo = []
+    for i, (c, m) in enumerate(zip(cases, meta)):
+        sidx, s, form, n, delta, mask = m
+        if delta != (0, 0, 0, 0):
+            continue
+        parts = s["any"].split("_")
+        op = "_".join(parts[2:])
+        kern = exprun.KERNEL_OF_OPNAME.get(op)
+        if kern is None:
+            continue
+        toks = c.split(" ")
+        todo.append((i, "%s:Fallback:%s " % (s["ty"], kern) + " ".join(toks[4:]), kern))
+    if not todo:
+        return
+    spec = runner.model("spec", [t[1] for t in todo])
+    nbad = {}
+    for (i, line, kern), sp in zip(todo, spec):
+        sidx, s, form, n, delta, mask = meta[i]
+        e = {"op": exprun.RUST_OF_KERNEL[kern], "ty": s["ty"]}
+        a = imp[i]
+        # the safe line prints `ok <ret|-> <cells...>` like the export line
+        agree = exprun.spec_agrees(a, sp, e, config, n)
+        if agree is False:
+            name = s["const"] if form == "c" else s["any"]
+            nbad[name] = nbad.get(name, 0) + 1
+            if nbad[name] > 1 or len(nbad) > 6:
+                continue
+            ctx.violation("%s:safe-spec:%s[mask=%d]" % (pid, name, mask),
+                          "safe routine %s (n=%d, feature mask %d through the hook, %s build) returned a result the property forbids for "
+                          "the operation its name announces" % (name, n, mask, config),
+                          {"kind": "input", "case": "safe " + cases[i][:4000], "build": config, "observed": (a or "<crashed>")[:1500],
+                           "specification": (sp or "")[:1500], "spec": "Model/Spec.v via ocaml driver `spec`"})
+    ctx.extra.setdefault("safe_spec_oracle", {})["%s/%s" % (pid, config)] = {"documented_calls": len(todo), "routines_failing": len(nbad)}
+
+
+def compare_safe(ctx, config, cases, meta, what, on_diff=None, shape_only=False, spec_pid=None):
     if not hook_ready(ctx):
         return -1
     ok, log = harness_build.build_cfh(config)
@@ -159,6 +198,8 @@ def compare_safe(ctx, config, cases, meta, what, on_diff=None, shape_only=False)
                     name = s["const"] if form == "c" else s["any"]
                     ctx.broke("correspondence", "%s: %s n=%d delta=%s mask=%d (%s)" % (what, name, n, delta, mask, config),
                               {"case": c[:3000], "build": config, "impl": (a or "<crashed>")[:1500], "model": (b or "")[:1500]})
+    if spec_pid:
+        check_safe_spec(ctx, spec_pid, config, cases, meta, imp)
     ctx.cover(len(cases), distinct_keys=["%s|%d" % (what, hash(c)) for c in cases],
               samples=[{"case": cases[0][:300], "impl": (imp[0] or "")[:150], "model": (mod[0] or "")[:150]}] if cases else [],
               rule="%s: safe routines called by name under a feature mask (hook) on guard-paged slices, %s build; "
